@@ -10,14 +10,41 @@ pub mod refm;
 pub mod fields;
 pub mod plain;
 pub mod toygroup;
+pub mod towers;
 pub mod toy_curves;
 
 #[cfg(feature = "c01")]
 pub mod c01_field;
-#[cfg(any(feature = "c03", feature = "c04", feature = "c09", feature = "c10", feature = "c12", feature = "c19"))]
+#[cfg(any(feature = "c02", feature = "c11", feature = "c19"))]
+pub mod c02_towers;
+#[cfg(any(feature = "c03", feature = "c04", feature = "c09", feature = "c10", feature = "c11", feature = "c12", feature = "c13", feature = "c19"))]
 pub mod c03_curves;
+#[cfg(feature = "c04")]
+pub mod c04_scalar_mul;
 #[cfg(feature = "c05")]
 pub mod c05_msm;
+#[cfg(feature = "c07")]
+pub mod c07_fft;
+#[cfg(feature = "c08")]
+pub mod c08_poly;
+#[cfg(any(feature = "c09", feature = "c10"))]
+pub mod c09_serialize;
+#[cfg(feature = "c10")]
+pub mod c10_deserialize;
+#[cfg(feature = "c11")]
+pub mod c11_sqrt;
+#[cfg(feature = "c12")]
+pub mod c12_subgroup;
+#[cfg(feature = "c13")]
+pub mod c13_hashing;
+#[cfg(feature = "c16")]
+pub mod c16_configs;
+#[cfg(feature = "c17")]
+pub mod c17_multilinear;
+#[cfg(feature = "c19")]
+pub mod c19_eq_ord_hash;
+#[cfg(feature = "c20")]
+pub mod c20_literals;
 #[cfg(feature = "c15")]
 pub mod c15_bigint;
 #[cfg(feature = "c18")]
@@ -29,10 +56,36 @@ pub fn registry() -> std::vec::Vec<(&'static str, fn())> {
     let mut v: std::vec::Vec<(&'static str, fn())> = std::vec::Vec::new();
     #[cfg(feature = "c01")]
     v.extend_from_slice(c01_field::REG);
+    #[cfg(feature = "c02")]
+    v.extend_from_slice(c02_towers::REG);
     #[cfg(feature = "c03")]
     v.extend_from_slice(c03_curves::REG);
+    #[cfg(feature = "c04")]
+    v.extend_from_slice(c04_scalar_mul::REG);
     #[cfg(feature = "c05")]
     v.extend_from_slice(c05_msm::REG);
+    #[cfg(feature = "c07")]
+    v.extend_from_slice(c07_fft::REG);
+    #[cfg(feature = "c08")]
+    v.extend_from_slice(c08_poly::REG);
+    #[cfg(feature = "c09")]
+    v.extend_from_slice(c09_serialize::REG);
+    #[cfg(feature = "c10")]
+    v.extend_from_slice(c10_deserialize::REG);
+    #[cfg(feature = "c11")]
+    v.extend_from_slice(c11_sqrt::REG);
+    #[cfg(feature = "c12")]
+    v.extend_from_slice(c12_subgroup::REG);
+    #[cfg(feature = "c13")]
+    v.extend_from_slice(c13_hashing::REG);
+    #[cfg(feature = "c16")]
+    v.extend_from_slice(c16_configs::REG);
+    #[cfg(feature = "c17")]
+    v.extend_from_slice(c17_multilinear::REG);
+    #[cfg(feature = "c19")]
+    v.extend_from_slice(c19_eq_ord_hash::REG);
+    #[cfg(feature = "c20")]
+    v.extend_from_slice(c20_literals::REG);
     #[cfg(feature = "c15")]
     v.extend_from_slice(c15_bigint::REG);
     #[cfg(feature = "c18")]
